@@ -184,3 +184,11 @@ Example C11_stale_future_needed :
     no_bad (snd (irun tapes [] [] [] false evs)) = true /\ plain_susp_plans (itrace tapes [] [] [] false evs) = true /\
     hold_ok (itrace tapes [] [] [] false evs) = false.
 Proof. exists w_tapes2, w_stale_evs. vm_compute. repeat split. Qed.
+
+(* ... and so is the restriction on pre/post plans: a pre-plan that re-enables rewinding, issues a message and pauses *)
+Example C11_plain_plans_needed :
+  exists tapes evs,
+    finding_C11_a evs = false /\ finding_C11_b evs = false /\ call_while_suspended evs = false /\ stale_future evs = false /\
+    no_bad (snd (irun tapes [] [] [] false evs)) = true /\ plain_susp_plans (itrace tapes [] [] [] false evs) = false /\
+    hold_ok (itrace tapes [] [] [] false evs) = false.
+Proof. exists w_tapes3, w_plain_evs. vm_compute. repeat split. Qed.
